@@ -113,8 +113,9 @@ type Exec struct {
 	w             *bufio.Writer
 	rng           *rand.Rand
 	virtual       bool
-	ctlDiffer     int // before the last Control: uuids named by the directory vs uuids of schema.json: 1 differ, 0 agree, -1 unknown
-	otherN        int // objects stored at creation in the second collection (shape.Other) of the handle; 0: unknown
+	cacheUnknown  bool // see Step
+	ctlDiffer     int  // before the last Control: uuids named by the directory vs uuids of schema.json: 1 differ, 0 agree, -1 unknown
+	otherN        int  // objects stored at creation in the second collection (shape.Other) of the handle; 0: unknown
 	otherU        [2]string
 	repairTouched bool   // the last Repair changed, added or removed an object file
 	lastColl      []Flat // what the last Collect / One returned, in the order it was returned
@@ -309,7 +310,40 @@ var uuidNameRe = regexp.MustCompile(`^(?i:[0-9a-f]{8}-[0-9a-f]{4}-[0-9a-f]{4}-[0
 // object files": entries of the collection directory whose name up to the first dot is a uuid
 // (any letter case) against the values of index.object-ids in schema.json (what a handle in
 // synchronous mode has in memory after any completed call)
-func (e *Exec) setsDiffer() int { return dirSetsDiffer(e.colDir()) }
+// setsDiffer: the uuids named by the directory against the uuids of the LIVE index of the handle when it has one
+// (what Control compares; after a Repair that failed part-way the live index is ahead of schema.json), else
+// against schema.json
+func (e *Exec) setsDiffer() int {
+	if e.spec.loaded {
+		var s *sod.Schema
+		var err error
+		if safe(func() { s, err = e.db.Schema(e.of()) }) == nil && s != nil && s.ObjectIndex != nil && (err == nil || sod.IsIndexCorrupted(err)) {
+			ents, rerr := os.ReadDir(e.colDir())
+			if rerr != nil {
+				return -1
+			}
+			onDisk := map[string]bool{}
+			for _, d := range ents {
+				name, _ := uuidPart(d.Name())
+				if uuidNameRe.MatchString(name) {
+					onDisk[name] = true
+				}
+			}
+			e.db.RLock()
+			defer e.db.RUnlock()
+			if len(s.ObjectIndex.ObjectIds) != len(onDisk) {
+				return 1
+			}
+			for _, u := range s.ObjectIndex.ObjectIds {
+				if !onDisk[u] {
+					return 1
+				}
+			}
+			return 0
+		}
+	}
+	return dirSetsDiffer(e.colDir())
+}
 
 // dirSetsDiffer: 1 when the uuids named by the entries of a collection directory differ from the uuids
 // of the id table of its schema.json, 0 when they are the same set, -1 when that cannot be told
@@ -585,6 +619,10 @@ func (e *Exec) oracles(t []string) {
 }
 
 // Step executes one op line
+// pairOther: in a pair run (C12) the OTHER configuration the same history is replayed under: the order of a
+// result is a function of the history only when the searched field is indexed under both
+var pairOther *Cfg
+
 func (e *Exec) Step(line string) {
 	e.obs = e.obs[:0]
 	t := strings.Fields(line)
@@ -639,6 +677,15 @@ func (e *Exec) Step(line string) {
 		e.w.Flush()
 		fmt.Fprintln(os.Stderr, "HANG in op: "+line)
 		os.Exit(3)
+	}
+	// a read of SEVERAL objects that failed on one of them, with the cache on: which objects it read (and cached)
+	// before the failing one is Go map order: what the cache holds is no longer a function of the history, and
+	// would show if a cached object's file were later removed or damaged from outside
+	if (e.cfg.Cache || e.cfg.Async) && len(e.obs) > 0 && strings.HasPrefix(e.obs[0], "r readerr") {
+		switch t[0] {
+		case "all", "collect", "one", "search", "and", "or", "sdel", "delall", "repair":
+			e.cacheUnknown = true
+		}
 	}
 	crashed := false
 	if pan != nil {
@@ -874,7 +921,7 @@ func (e *Exec) step(t []string) {
 		native := len(t) > i+3 && t[i+3] == "native"
 		val := keyValue(t[i+2], fld, native)
 		var s *sod.Search
-		det := e.cfg.indexed(fld)
+		det := e.cfg.indexed(fld) && (pairOther == nil || pairOther.indexed(fld))
 		switch t[0] {
 		case "search":
 			s = db.Search(e.of(), fieldName(fld), op, val)
@@ -902,7 +949,13 @@ func (e *Exec) step(t []string) {
 		}
 	case "len":
 		sid, _ := strconv.Atoi(t[1])
-		e.emit("r ok %d", e.searches[sid].s.Len())
+		if e.searches[sid].s.Err() != nil {
+			// (the length of a failed search is not an observable: see the driver)
+			e.searches[sid].s.Len()
+			e.emit("r ok *")
+		} else {
+			e.emit("r ok %d", e.searches[sid].s.Len())
+		}
 	case "collect", "one":
 		// collect <sid> <limit|-1> <rev> <mode>   mode: 0 exact order, 1 sorted, 2 count only
 		sid, _ := strconv.Atoi(t[1])
